@@ -15,21 +15,6 @@ evaluates the same statements on what the reader actually reports.
 namespace IsoMdl.Honest
 open IsoMdl IsoMdl.Session IsoMdl.Disclosure IsoMdl.ReaderAuth
 
-/-- a round's inputs: the prepared documents (non-empty) and one signature each -/
-structure RoundIn where
-  docs : List Nat
-  sigs : List Nat
-  deriving Repr
-
-def RoundIn.Ok (x : RoundIn) : Prop := x.docs ≠ [] ∧ x.sigs.length = x.docs.length
-
-/-- all further rounds, collecting what each end reports -/
-def rounds : Device → Reader → List RoundIn → List (Session.Outcome × Option Session.Outcome)
-  | _, _, [] => []
-  | d, r, x :: xs =>
-    let (d', r', o1, o2) := round d r x.docs x.sigs
-    (o1, o2) :: rounds d' r' xs
-
 /-- EVERY MESSAGE DECRYPTS, IN EVERY ROUND: from roles in step (in particular right after session
 establishment), for ANY number of rounds each with any non-empty set of documents, the device
 accepts every request and the reader accepts every response, which has status 0 and pairs every
@@ -119,13 +104,13 @@ signed with the issued device key over this session's transcript, BOTH statuses 
 error is reported. -/
 theorem C01_both_valid (f : Facts)
     (hreach : f.decrypts = true ∧ f.decodes = true ∧ f.hasDocuments = true ∧ f.hasMdlDoc = true ∧
-      f.x5chainPresent = true ∧ f.x5chainParses = true ∧ f.namespacesPresent = true ∧ f.coreNamespacePresent = true)
+      f.x5chainPresent = true ∧ f.x5chainParses = true)
     (hchain : f.chainErrors = 0) (hi : IssuerSignatureOk f) (hd : DeviceSignatureOk f) :
-    handleResponse f = ⟨.valid, .valid, [], true⟩ := by
-  obtain ⟨h1, h2, h3, h4, h5, h6, h7, h8⟩ := hreach
+    handleResponse f = ⟨.valid, .valid, [], f.namespacesPresent && f.coreNamespacePresent⟩ := by
+  obtain ⟨h1, h2, h3, h4, h5, h6⟩ := hreach
   have hI := (issuerAuthentication_iff f).mpr hi
   have hD := (deviceAuthentication_iff f).mpr hd
-  simp [handleResponse, h1, h2, h3, h4, h5, h6, h7, h8, hchain, hI, hD]
+  simp [handleResponse, h1, h2, h3, h4, h5, h6, hchain, hI, hD]
 
 /-- SAME KEYS: both roles compute SKReader / SKDevice as the same function of the shared secret and
 of the transcript bytes; given the same ECDH secret (symmetry of ECDH is observed on every run,
